@@ -14,8 +14,9 @@ from . import core
 # ---------------------------------------------------------------- configurations
 
 
-def add(total=1, sync=False, rm=False, nopop=False, after=0, fail=0, sd=None, prio=None):
-    return {"op": "add", "total": total, "sync": sync, "rm": rm, "nopop": nopop, "after": after, "fail": fail, "sd": sd, "prio": prio}
+def add(total=1, sync=False, rm=False, nopop=False, after=0, fail=0, sd=None, prio=None, failkind="fill"):
+    return {"op": "add", "total": total, "sync": sync, "rm": rm, "nopop": nopop, "after": after, "fail": fail, "sd": sd, "prio": prio,
+            "failkind": failkind}
 
 
 def incr(b, n=1):
@@ -61,6 +62,8 @@ CONFIGS = {
     "fault1": (2, 2, False, [[add(2, fail=2), add(1), incr(2), incr(1), call("wait")]], 3),           # a filler error, no synced decorators
     "fault2": (2, 2, False, [[add(2), add(1, fail=1), incr(1), call("wait")], [call("write")]], 3),
     "faultsync": (3, 3, False, [[add(2, True), add(2, True), add(2, fail=1), call("wait")]], 2),    # finding F5
+    "faultext": (2, 2, False, [[add(2, failkind="ext", fail=2), add(1), incr(2), incr(1), call("wait")]], 3),
+    "faultout": (2, 2, False, [[add(2), add(1), incr(2), incr(1), call("wait")], [call("write")]], 3, "auto", 2),
     "three":  (3, 3, False, [[add(1, True), add(1, True), add(1), incr(1), incr(2), incr(3), call("wait")]], 2),
 }
 
@@ -94,13 +97,15 @@ def write_model(wd, name, extra_cfg="", spec="Spec", invariants="NoPanic NoHang 
     if sim:
         ticks = 12   # random walks waste ticks; the bound only has to keep a walk finite
     prog = "<< " + ", ".join("<< " + ", ".join(tla_op(o) for o in p) + " >>" for p in progs) + " >>"
-    fault, nadd_ = "[b |-> 1, at |-> 0]", 0
+    fault, nadd_ = '[kind |-> "fill", b |-> 1, at |-> 0]', 0
     for p_ in progs:
         for o in p_:
             if o["op"] == "add":
                 nadd_ += 1
                 if o.get("fail"):
-                    fault = "[b |-> %d, at |-> %d]" % (nadd_, o["fail"])
+                    fault = '[kind |-> "%s", b |-> %d, at |-> %d]' % (o.get("failkind", "fill"), nadd_, o["fail"])
+    if len(cfg) > 6 and cfg[6]:
+        fault = '[kind |-> "out", b |-> 1, at |-> %d]' % cfg[6]
     base = "MPBSim" if sim else "MPBCore"
     mod = "MCgen_%s" % name
     open(os.path.join(wd, mod + ".tla"), "w").write(
@@ -144,7 +149,7 @@ def scenario(name, sid, steps=None, mode="replay", seed=1, stats=True):
                 if o.get("after"):
                     h["after"] = "b%d" % o["after"]
                 if o.get("fail"):
-                    h["fault"] = {"kind": "fill", "at": o["fail"]}
+                    h["fault"] = {"kind": o.get("failkind", "fill"), "at": o["fail"]}
                 ops.append(h)
             elif o["op"] == "incr":
                 ops.append({"op": "incr", "b": "b%d" % o["b"], "n": o["n"]})
@@ -158,7 +163,8 @@ def scenario(name, sid, steps=None, mode="replay", seed=1, stats=True):
                 ops.append({"op": o["op"]})
         clients.append(ops)
     return {"id": sid, "family": "core:" + name,
-            "cfg": {"q": q, "refresh": refresh, "pop": pop, "notifier": False, "width": 120, "delay": False, "outfault": 0, "ctx": False},
+            "cfg": {"q": q, "refresh": refresh, "pop": pop, "notifier": False, "width": 120, "delay": False,
+                    "outfault": CONFIGS[name][6] if len(CONFIGS[name]) > 6 else 0, "ctx": False},
             "clients": clients,
             "sched": {"mode": mode, "seed": seed, "tickw": 1, "steps": steps or [], "budget": 0, "bias": []}, "stats": stats}
 
@@ -180,7 +186,8 @@ def number_adds(progs):
 def scenario_to_config(sc):
     """A generated scenario as an MPBCore configuration, or None when it uses something the specification does not model yet."""
     c = sc["cfg"]
-    if c.get("delay") or c.get("outfault"):
+    outfault = c.get("outfault") or 0
+    if outfault > 3:
         return None
     names, progs, fault_seen = {}, [], False
     for ci, prog in enumerate(sc["clients"]):
@@ -200,14 +207,14 @@ def scenario_to_config(sc):
                     for i, d in enumerate(o.get(key) or []):
                         if d.get("sync"):
                             sd.append((side, i))
-                fail = 0
+                fail, failkind = 0, "fill"
                 if o.get("fault"):
-                    if o["fault"]["kind"] != "fill" or fault_seen:
+                    if o["fault"]["kind"] not in ("fill", "ext") or fault_seen or outfault:
                         return None
                     fault_seen = True
-                    fail = o["fault"]["at"]
+                    fail, failkind = o["fault"]["at"], o["fault"]["kind"]
                 q.append(add(o.get("total", 0), rm=o.get("rm", False), nopop=o.get("nopop", False), after=names.get(o.get("after"), 0),
-                             fail=fail, sd=sd, prio=o.get("prio")))
+                             fail=fail, sd=sd, prio=o.get("prio"), failkind=failkind))
             elif op in ("incr", "ewma"):
                 q.append({"op": "incr", "b": b, "n": o.get("n", 0)})
             elif op in ("setcur", "refill"):
@@ -226,12 +233,14 @@ def scenario_to_config(sc):
                 q.append({"op": "get1", "b": b})
             elif op in ("write", "wait", "shutdown", "cancel", "refresh"):
                 q.append({"op": op})
+            elif op == "delayend":
+                q.append({"op": "nop"})     # the render delay only swaps the writer: no gate is involved
             else:
                 return None
         progs.append(q)
     if not names:
         return None
-    return (len(names), 128 if c["q"] < 0 else c["q"], c["pop"], progs, 0, c["refresh"])
+    return (len(names), 128 if c["q"] < 0 else c["q"], c["pop"], progs, 0, c["refresh"], outfault)
 
 
 # ---------------------------------------------------------------- labels
